@@ -376,6 +376,12 @@ func (a *Array) Set(index uint64, value Value) (Storable, error) {
 		return nil, err
 	}
 
+	// If value is the container that is already inlined at index, nothing was overwritten:
+	// the existing element and the new element are the same inlined slab, so it must stay inlined.
+	if isInlinedSlabOfValue(existingStorable, value) {
+		return existingStorable, nil
+	}
+
 	var existingValueID ValueID
 
 	// If overwritten storable is an inlined slab, uninline the slab and store it in storage.
